@@ -423,7 +423,7 @@ func checkC03(c *Ctx) {
 	for i, h := range pvCorpus() {
 		cases = append(cases, hcase{fmt.Sprintf("corpus#%d", i), 1, h, i})
 	}
-	for i := 0; i < c.Pick(800, 10000); i++ {
+	for i := 0; i < c.Pick(800, 80000); i++ {
 		r := c.CaseRng("hist", i)
 		nconn := 1 + r.Intn(2)
 		cases = append(cases, hcase{c.CaseID("hist", i), nconn, genPvHistory(r, nconn), i})
